@@ -132,9 +132,8 @@ pub fn run(ctx: &mut Ctx) {
         ctx.forall(&format!("comp/{}", id.name()), cases, strat(id, max), dispatch_comp);
     }
     for id in ALL_CODECS {
-        let mut lens = gen::long_lens(ctx.thorough(), ctx.seed);
-        // one sequence just above 32 KiB of packed data, with a partial last word
-        lens.push((1usize << 18) / id.bits() + 1);
+        // includes one sequence just above 32 KiB of packed data, with a partial last word
+        let lens = gen::long_lens_bits(id.bits(), ctx.thorough(), ctx.seed);
         ctx.forall_lens(&format!("rev_long/{}", id.name()), &lens, |n| gen::seq_spec_n(id, n).prop_map(move |s| Case { codec: id, s }), dispatch_rev);
         if COMP_CODECS.contains(&id) {
             ctx.forall_lens(&format!("comp_long/{}", id.name()), &lens, |n| gen::seq_spec_n(id, n).prop_map(move |s| Case { codec: id, s }), dispatch_comp);
